@@ -127,3 +127,10 @@ Proof.
       rewrite replace_nth_map. apply (gen_tail_eq j (replace_nth (j_pending j) (j_timers j) tm')).
     + cbn [bind]. apply (gen_tail_eq j (j_timers j)).
 Qed.
+
+(* Job._exec of both front ends = Model.job_run: attempts always counted, failures counted, nothing else touched;
+   the callback's outcome (does it raise an Exception subclass) is the parameter *)
+Theorem tie_thr_job_exec j raises : GenJobState.thr_job_exec (py_of_job j) raises = Ok (py_of_job (job_run j raises)).
+Proof. unfold GenJobState.thr_job_exec, job_run, py_of_job. destruct raises; reflexivity. Qed.
+Theorem tie_aio_job_exec j raises : GenJobState.aio_job_exec (py_of_job j) raises = Ok (py_of_job (job_run j raises)).
+Proof. unfold GenJobState.aio_job_exec, job_run, py_of_job. destruct raises; reflexivity. Qed.
